@@ -1172,6 +1172,32 @@ structure Scheduled (r : Root) (s : Id) (rD : Root) (buf : List Id) : Prop where
   /-- exactly the direct dependents of `s` are flagged -/
   dirty : ∀ j, (markDependentsDirty rD s).get? j =
     (rD.get? j).map fun m => { m with dirty := m.dirty || isDependentOf rD s j }
+  /-- `dfs` pushes the start node last: it is the head of `buf.reverse` -/
+  last : ∃ pre, buf = pre ++ [s]
+
+/-- resetting the mark of the start node before the second loop changes nothing when that node is
+the head of the schedule: the first step of the loop clears this mark anyway -/
+theorem propagateLoop_resetMarks_head (fuel : Nat) (r : Root) (s : Id) (rest : List Id) :
+    propagateLoop fuel (resetMarks r [s]) (s :: rest) = propagateLoop fuel r (s :: rest) := by
+  cases fuel with
+  | zero => simp [propagateLoop]
+  | succ fuel =>
+    simp only [resetMarks]
+    cases hn : r.get? s with
+    | none => rfl
+    | some n =>
+      simp only
+      rw [propagateLoop, propagateLoop]
+      simp only [Dfs.get?_setNode_of_get? hn, if_pos, hn, Dfs.setNode_setNode]
+
+/-- the form used after `visitStarts … [s]`: the schedule `buf.reverse` starts with `s` -/
+theorem Scheduled.loop_resetMarks {r : Root} {s : Id} {rD : Root} {buf : List Id}
+    (h : Scheduled r s rD buf) (fuel : Nat) (R : Root) :
+    propagateLoop fuel (resetMarks R [s]) buf.reverse = propagateLoop fuel R buf.reverse := by
+  obtain ⟨pre, rfl⟩ := h.last
+  simp only [List.reverse_append, List.reverse_cons, List.reverse_nil, List.nil_append,
+    List.singleton_append]
+  exact propagateLoop_resetMarks_head fuel R s _
 
 theorem visitStarts_static {r : Root} {s : Id} (hS : Struct r) (hm : Unmarked r) (hs : r.alive s = true) :
     ∃ rD buf, visitStarts r [] [s] = .ok (markDependentsDirty rD s, buf) ∧ Scheduled r s rD buf := by
@@ -1182,8 +1208,9 @@ theorem visitStarts_static {r : Root} {s : Id} (hS : Struct r) (hm : Unmarked r)
   obtain ⟨hD, hin⟩ := dfs_topological hI hdfs
   obtain ⟨hN, hB⟩ := dfs_nodup List.nodup_nil (fun i hi => by cases hi) hdfs
   have hSD := hP.frame.flagsRel.struct hS
+  obtain ⟨ns, hns⟩ := Root.alive_iff.1 hs
   refine ⟨rD, buf, by simp [visitStarts, hdfs], hP.frame, hN, hin hs, ?_, ?_, ?_,
-    markDependentsDirty_get? rD s⟩
+    markDependentsDirty_get? rD s, by simpa using dfs_last hdfs hns (hm s ns hns)⟩
   · intro j n hj
     by_cases hb : j ∈ buf
     · obtain ⟨n', hn', hp⟩ := hB j hb
